@@ -3,7 +3,8 @@ from __future__ import annotations
 
 from typing import Dict, List
 
-from .run_trace import DT, run_traces, stage_traces
+from .run_trace import DT, DT0, run_traces, stage_traces
+from .smallstep import render
 from .src import AnalysisError
 
 
@@ -61,6 +62,8 @@ def loop_verdicts(repo) -> Dict[str, List[str]]:
         for e in updates:
             if e.kwargs != ["mu", "psi"] or e.label is None:
                 V["update_args"].append(f"[{tag}] the update is called with state label {e.label} and fields {e.kwargs}")
+            if getattr(e, "dt_in", None) is not None and e.dt_in not in (render(DT0), render(DT)):
+                V["update_args"].append(f"[{tag}] the update is handed dt = {e.dt_in}: neither the initial step nor the step the previous update returned")
         # --- the record buffer: cursor += 1 and clock advance once per update, before the next label -------------------------------
         evs = t.events
         for i, e in enumerate(evs):
